@@ -494,6 +494,9 @@ def emit_fn(item, fns_spec, loops_spec, used_fn, used_loop, defaulted, inferred=
         sp = default_contract(item, inferred)
         if sp:
             defaulted.append(item.name)
+        else:
+            # no @fn entry and nothing to infer from its signature: Verus knows nothing about what it returns
+            defaulted.append('?' + item.name)
     else:
         used_fn.add(item.name)
     header, has_ret = name_return(item.header)
@@ -644,7 +647,9 @@ def assemble(ex, prelude, fns_spec, loops_spec, stubs, top=None, inferred=None, 
             linemap.append((line, line + n - 1, it.path, it.line, it.name))
         text += chunk
         line += n
-    info = {'contracted': sorted(used_fn), 'defaulted': defaulted, 'dropped_anchors': dropped_anchors,
+    uncontracted = [d[1:] for d in defaulted if d.startswith('?')]
+    defaulted[:] = [d for d in defaulted if not d.startswith('?')]
+    info = {'contracted': sorted(used_fn), 'defaulted': defaulted, 'uncontracted': uncontracted, 'dropped_anchors': dropped_anchors,
             'loops_contracted': sorted('%s#%d' % k for k in used_loop if len(k) == 2),
             'closures_contracted': sorted('%s#%d' % (k[0], k[2]) for k in used_loop if len(k) == 3 and k[1] == 'closure')}
     return text, linemap, info
